@@ -402,6 +402,8 @@ class Canon:
             if t[1] == "list":
                 return "[" + f"{s(t[2][0])}{gens}" + "]"
             return f"<{t[1]}comp {', '.join(s(x) for x in t[2])}{gens}>"
+        if k == "closure":
+            return f"<closure {t[2]}>"
         if k == "istype":
             return f"type({s(t[1])}) is {t[2]}"
         if k == "undef":
